@@ -615,6 +615,14 @@ pub fn run(p: &Params) -> (Stats, &'static str) {
             break;
         }
     }
+    // Connect with id 0 / an id in use while the application's accept queue is (or is not) full: the cases of C07's raw peer
+    let n_bc = p.share(if p.tier_thorough { 400_000 } else { 3_000 });
+    for i in 0..n_bc {
+        crate::c07::raw_bad_connect_case(&mut st, mix(p.shard_seed("C10"), 0xBC_0000 + i));
+        if st.too_many_violations() {
+            break;
+        }
+    }
     (st, RULE)
 }
 
